@@ -1,10 +1,15 @@
 import SioVerif.Inst
 import SioVerif.Lemmas.Batcher
 import SioVerif.Lemmas.EioCodec
+import SioVerif.Model.Limits
 /-
   C13 (batcher half) — "A client never sends a long-polling request whose batch of several packets
   exceeds the announced maxPayload, and batching neither drops, duplicates nor reorders packets."
-  The inbound-limit half of C13 is decided by the transport correspondence (see DESIGN.md, C13).
+  Inbound half — "The server never accepts or buffers an inbound message larger than MaxBufferSize on
+  any transport, however its size is declared or not declared ...; every message within the limit
+  announced in the handshake is accepted": `never_accepts_or_buffers_larger`, `accepts_within_limit`,
+  `disabled_accepts_all` over the decision model of the two server transports (Model/Limits.lean),
+  which the limits rig compares with the real server at sizes around every limit.
 -/
 namespace SioVerif.C13
 open SioVerif.Batcher SioVerif.Eio
@@ -39,6 +44,45 @@ theorem payloadLen_is_wire_length (ps : List Packet) :
   | case2 p => rfl
   | case3 p q rest ih => simp only [encodedPayloadsLen, List.map_cons, payloadLen] at ih ⊢; omega
 where C11P : Params := Inst.eioParams
+
+/-! ### inbound limits -/
+
+open SioVerif.Limits in
+/-- whatever the declaration (Content-Length, truthful or not, or none): with a limit, nothing larger
+    than the limit is accepted and never more than limit+1 bytes of it are held -/
+theorem never_accepts_or_buffers_larger (limit : Nat) (hl : limit ≠ 0) (declared : Option Nat) (actual : Nat) :
+    ((pollingPost limit declared actual).accepted = true → actual ≤ limit) ∧
+    (pollingPost limit declared actual).buffered ≤ limit + 1 ∧
+    ((wsMessage limit actual).accepted = true → actual ≤ limit) ∧
+    (wsMessage limit actual).buffered ≤ limit + 1 := by
+  unfold pollingPost wsMessage
+  simp only [hl, ↓reduceIte]
+  cases declared with
+  | none => by_cases h : actual > limit <;> simp [h] <;> omega
+  | some d =>
+    by_cases hd : d > limit
+    · by_cases h : actual > limit <;> simp [hd, h] <;> omega
+    · by_cases h : actual > limit <;> simp [hd, h] <;> omega
+
+open SioVerif.Limits in
+/-- every message within the limit is accepted, on both transports, declared truthfully or not at all -/
+theorem accepts_within_limit (limit actual : Nat) (h : actual ≤ limit) :
+    (pollingPost limit (some actual) actual).accepted = true ∧ (pollingPost limit none actual).accepted = true ∧
+    (wsMessage limit actual).accepted = true := by
+  unfold pollingPost wsMessage
+  by_cases hl : limit = 0
+  · simp [hl]
+  · have h1 : ¬ actual > limit := by omega
+    simp [hl, h1]
+
+open SioVerif.Limits in
+theorem disabled_accepts_all (declared : Option Nat) (actual : Nat) :
+    (pollingPost 0 declared actual).accepted = true ∧ (wsMessage 0 actual).accepted = true := by
+  simp [pollingPost, wsMessage]
+
+/-- the limit is installed on every inbound path (read from the source by the translator) -/
+theorem limits_installed :
+    Gen.eioPollingBodyLimited = true ∧ Gen.eioWsServerReadLimitSet = true ∧ Gen.eioWsClientReadLimitLifted = true := by decide
 
 /-- the loop as it was before the repair: negative witnesses (D7) -/
 theorem Legacy.split_overflow :
